@@ -12,6 +12,7 @@
   `start` and `max` range over all of `Nat` (so `SIZE_MAX` and everything beyond the end).
 -/
 import StVerif.Lemmas.Find
+import StVerif.Lemmas.KernelBridge
 
 namespace StVerif.Props.C07
 open StVerif StVerif.Search StVerif.Spec.Search
@@ -162,5 +163,14 @@ example : occursAt .insensitive [0x41, 0x42, 0x43] [0x62, 0x63] 1 := by decide
 
 /-- the byte hypotheses of `starts_with_iff` / `affix_forms_agree` are satisfiable (any byte values, NUL and ≥ 0x80 included) -/
 example : Bytes [0x00, 0x41, 0x80, 0xFF] ∧ Bytes (Affix.text (.cstr (some [0x61, 0x00, 0x62]))) := by decide
+
+/-! ### tie to the source (tools/gen_kernels.py) -/
+
+/-- `cl_fast_lower` / `cl_fast_upper` as translated from include/st_string_priv.h on every run are the model's case
+    folds on every `char` value (the byte seen as the signed `char` the C++ receives) -/
+theorem case_fold_is_model : ∀ b, b < 256 →
+    StVerif.Generated.Kernels.cl_fast_lower (KernelBridge.toChar b) = .ok (KernelBridge.toChar (StVerif.Search.lower b)) ∧
+    StVerif.Generated.Kernels.cl_fast_upper (KernelBridge.toChar b) = .ok (KernelBridge.toChar (StVerif.Search.upper b)) :=
+  fun b hb => ⟨KernelBridge.cl_fast_lower_eq b hb, KernelBridge.cl_fast_upper_eq b hb⟩
 
 end StVerif.Props.C07
